@@ -15,7 +15,11 @@ def models():
     rx = [ma([A], [B], 1.5), ma([B], [A], 0.5)]
     drx = [dict(ma([A], [B], 1.5), delay=dict(type='fixed', delay=0.3, reactants=[], products=[C])), ma([B], [A], 0.5), ma([C], [], 0.7)]
     rule = [dict(type='assignment', target=X, rhs=('+', ('*', ('num', 2), ID(A)), ID(B)), freq='repeated')]
+    # twelve species (index order differs from the alphabetical and from the string order of the indices), distinct initial values
+    names12 = ['s%02d' % i for i in (7, 3, 11, 0, 9, 1, 5, 10, 2, 8, 4, 6)]
+    chain = [ma([names12[i]], [names12[i + 1]], 0.5 + 0.1 * i) for i in range(11)] + [ma([names12[11]], [names12[0]], 0.3)]
     return {
+        'twelve': spec('twelve', names12, {n_: float(3 + 2 * i) for i, n_ in enumerate(names12)}, chain),
         'plain': spec('plain', [A, B], {A: 4, B: 1}, rx),
         'delayed': spec('delayed', [A, B, C], {A: 4, B: 1, C: 0}, drx),
         'rule': spec('rule', [B, A, X], {A: 4, B: 1, X: 0}, rx, rules=rule),
@@ -28,7 +32,7 @@ def models():
 
 
 def lattice(tier):
-    vols = ['False', 'True', 'num', 'obj', 'growing', 'dividing']
+    vols = ['False', 'True', 'num', 'int2', 'int3', 'obj', 'growing', 'dividing']
     grids = [3, 5, 9] if tier == 'thorough' else [3, 6]
     out = []
     for stochastic, delay, safe, vol, df, via, mname, n in itertools.product(
@@ -48,6 +52,8 @@ def make_volume(kind, m):
         return True
     if kind == 'num':
         return 2.0
+    if kind in ('int2', 'int3'):
+        return int(kind[-1])         # a positive number written as a Python int
     if kind == 'obj':
         v = Volume()
         v.py_set_volume(1.5)
@@ -100,7 +106,10 @@ def run_one(c, opt):
         return
     c.count('returned')
     c.nontrivial((opt['stochastic'], opt['delay'], opt['safe'], opt['volume'], opt['dataframe'], opt['via'], opt['model'], bool(opt.get('second_call'))))
-    species = m.get_species_list()
+    s2i = m.get_species2index()
+    species = sorted(s2i, key=lambda s_: s2i[s_])        # the model's order, read from the index dictionary
+    if list(m.get_species_list()) != species:
+        bad('columns', 'get_species_list() %s is not in index order %s' % (list(m.get_species_list()), species))
     uses_volume = opt['volume'] != 'False' and (opt['stochastic'] or opt['delay'])
     if opt['dataframe']:
         if not isinstance(res, pandas.DataFrame):
@@ -149,6 +158,9 @@ def run_one(c, opt):
             bad('first-row', 'first row %s is not the initial condition with rules applied %s (%s)' % (list(data[0]), want, species))
     if volcol is not None and len(volcol) and np.any(volcol <= 0):
         bad('volume-column', 'non-positive volume reported: %s' % volcol)
+    asked = {'num': 2.0, 'int2': 2.0, 'int3': 3.0, 'obj': 1.5}.get(opt['volume'])
+    if volcol is not None and len(volcol) and asked is not None and np.any(volcol != asked):
+        bad('volume-value', 'the volume was given as the constant %s, the result reports %s' % (asked, volcol))
     if len(c.samples) < 3 and opt['delay'] and opt['volume'] != 'False':
         c.sample(dict(opt=opt, rows=int(nrows), columns=[str(x_) for x_ in (list(res.columns) if opt['dataframe'] else species)]))
 
@@ -156,11 +168,11 @@ def run_one(c, opt):
 def run(ctx):
     lat = lattice(ctx.tier)
     ctx.bounds = dict(option_combinations=len(lat))
-    ctx.rule = ('E3/product lattice, exhaustive: {stochastic} x {delay None/False/True} x {safe} x {volume False/True/number/Volume object/'
-                'initialised growing volume (thorough: + dividing)} x {data frame, result object} x {Model, pre-built interface} x 6 models '
-                '(plain, delayed reaction, repeated assignment rule, both, a rule due at the start spelled "start" and "0") x grid lengths; every call is made on the real py_simulate_model under a '
+    ctx.rule = ('E3/product lattice, exhaustive: {stochastic} x {delay None/False/True} x {safe} x {volume False/True/number (float 2.0, int 2, int 3)/Volume object/'
+                'initialised growing volume (thorough: + dividing)} x {data frame, result object} x {Model, pre-built interface} x 7 models '
+                '(twelve species in a cycle, plain, delayed reaction, repeated assignment rule, both, a rule due at the start spelled "start" and "0") x grid lengths; every call is made on the real py_simulate_model under a '
                 'fixed seed, and for one grid length the same call is repeated on the same Model / interface. Oracle: a returned result has the requested time axis (prefix if divided), one column per species in model '
-                'order (+volume when a volume is used), first row = initial condition with rules applied; a refusal must be a ValueError/'
+                'order (+volume when a volume is used; a constant volume given as a number or Volume object is reported with that value), first row = initial condition with rules applied; a refusal must be a ValueError/'
                 'TypeError naming an option (or NotImplementedError raised by the entry point itself). states = transitions = calls; '
                 'non-trivial = distinct (option tuple, model) that returned, plus distinct rejected option classes.')
     ctx.assumptions = ['uniform grids starting at the model initial time 0']
